@@ -27,6 +27,10 @@ DT = {"float32": 0, "float64": 1, "uint8": 2, "int64": 3}
 PLAIN = ["euclidean", "cosine", "manhattan", "hellinger", "correlation"]
 
 
+class SubArray(np.ndarray):
+    pass
+
+
 def digest(a):
     import scipy.sparse as sps
     h = hashlib.sha1()
@@ -54,6 +58,9 @@ def make_array(rs, n, dim, cfg, bit=False):
     if cfg["storage"] == "dense":
         if cfg["layout"] == "C":
             a = np.ascontiguousarray(base.astype(dt))
+        elif cfg["layout"] == "subclass":
+            # an ndarray subclass (as np.memmap is): validation returns a base-class VIEW of the same memory
+            a = np.ascontiguousarray(base.astype(dt)).view(SubArray)
         elif cfg["layout"] == "F":
             a = np.asfortranarray(base.astype(dt))
         else:
@@ -94,7 +101,7 @@ def gen_cfg(rng, sparse_ok=True, force_dense=False, force_sparse=False):
         storage = rng.choice(["csr_sorted", "csr_unsorted", "csr_unsorted"])
     return dict(dtype=rng.choice(["float32", "float32", "float32", "float64", "uint8", "int64"]) if storage == "dense"
                 else rng.choice(["float32", "float32", "float64", "int64"]),
-                layout=rng.choice(["C", "C", "F", "strided"]), storage=storage)
+                layout=rng.choice(["C", "C", "F", "strided", "subclass"]), storage=storage)
 
 
 def shares(index, X):
